@@ -1055,6 +1055,13 @@ static int32 tls13WriteCertificate(ssl_t *ssl, sslBuf_t *out)
                     break;
                 }
 #  endif
+#  if defined(USE_RSA) && defined(USE_PKCS1_PSS)
+                if (c->sigAlgorithm == OID_RSASSA_PSS &&
+                    tls13IsRsaPssSigAlg(ssl->sec.keySelect.peerCertSigAlgs[i]))
+                {
+                    break;
+                }
+#  endif
             }
         }
         if (c == NULL || i == ssl->sec.keySelect.peerCertSigAlgsLen)
